@@ -384,9 +384,7 @@ func (l *Linter) LintFiles(filepaths []string, project *Project) ([]*Error, erro
 		})
 	}
 
-	if err := eg.Wait(); err != nil {
-		return nil, err
-	}
+	err := eg.Wait()
 
 	// Ensure that all processes finish. `proc.wait()` must be called after `eg.Wait()`.
 	// Calling `WaitGroup.Add` after `WaitGroup.Wait` can cause a race condition (specifically when
@@ -394,7 +392,13 @@ func (l *Linter) LintFiles(filepaths []string, project *Project) ([]*Error, erro
 	// `WaitGroup.Add` is called in `proc.run()` and `WaitGroup.Wait` is called in `proc.wait()`.
 	// After traversing all workflows, `proc.run()` is no longer called so `proc.wait()` can be
 	// called safely.
+	// This must happen on the error path too. When checking a file stopped with a fatal error,
+	// processes of the rules which were not waited for yet may still be running.
 	proc.wait()
+
+	if err != nil {
+		return nil, err
+	}
 
 	total := 0
 	for i := range ws {
